@@ -401,3 +401,68 @@ func wedgeLane(c *ev.Ctx) {
 		}
 	}
 }
+
+// Policy-cost lane: every request of a non-admin account is matched against the bucket policy, so a legal policy
+// (many wildcards) together with a legal key (long, almost matching) must still be answered. A request that a fresh
+// gateway leaves unanswered for the whole watchdog, twice, while it answers root's signed requests, is a violation.
+func policyCostLane(c *ev.Ctx) {
+	id := "wedge/policy-cost"
+	if !c.Want(id) {
+		return
+	}
+	env, err := fx.New("c20p", gw.Config{}, 1)
+	if err != nil {
+		c.Inconclusive("gateway start (policy-cost lane): " + err.Error())
+		return
+	}
+	defer env.Close()
+	root := env.Client(0)
+	root.Admin("/create-user", "", acctBody("alice", wSK))
+	const b = "logbucket"
+	if r := root.CreateBucket(b); !r.OK() {
+		c.Inconclusive("create bucket: " + r.String())
+		return
+	}
+	for _, shape := range []struct {
+		name, res, key string
+	}{
+		{"17-wildcards-slash", b + "/logs/" + strings.Repeat("*/", 17) + "*.gz", "logs/" + strings.Repeat("d/", 480) + "app.txt"},
+		{"30-wildcards-letter", b + "/" + strings.Repeat("*a", 30) + "*.gz", strings.Repeat("da", 480) + "app.txt"},
+		{"24-adjacent-wildcards", b + "/" + strings.Repeat("*", 24) + "x", strings.Repeat("a", 900)},
+	} {
+		pol := fmt.Sprintf(`{"Version":"2012-10-17","Statement":[{"Effect":"Allow","Principal":{"AWS":["alice"]},"Action":"s3:GetObject","Resource":"arn:aws:s3:::%s"}]}`, shape.res)
+		if r := root.Sub("PUT", b, "", "policy=", []byte(pol)); !r.OK() {
+			c.Observe("policy-cost lane: policy refused (" + shape.name + "): " + r.String())
+			continue
+		}
+		unanswered := 0
+		for attempt := 0; attempt < 2; attempt++ {
+			alice := env.Client(0).With("alice", wSK)
+			r := alice.Do(&s3c.Req{Method: "HEAD", Path: s3c.ObjPath(b, shape.key), FreshConn: true, Watchdog: 20 * time.Second})
+			c.Eval(1)
+			if r.Err == nil {
+				break
+			}
+			probe := env.Client(0).Do(&s3c.Req{Method: "GET", Path: "/", FreshConn: true, Watchdog: 10 * time.Second})
+			if i, cr := env.Dead(); cr != nil {
+				c.Violation("wedge:policy-evaluation:gateway-died:"+strings.TrimPrefix(cr.TopFrame, "github.com/versity/versitygw/"), id, map[string]any{"gateway": i, "crash": cr.Message, "policy_resource": shape.res})
+				return
+			}
+			if probe.Err != nil {
+				c.Inconclusive("policy-cost lane: request unanswered and the signed probe too (machine or gateway overloaded)")
+				return
+			}
+			unanswered++
+			if err := env.Restart(0); err != nil {
+				c.Inconclusive("restart: " + err.Error())
+				return
+			}
+		}
+		if unanswered == 2 {
+			c.Violation("unanswered:policy-evaluation:"+shape.name, id, map[string]any{"policy_resource": shape.res, "key_len": len(shape.key), "key_head": shape.key[:40] + "...",
+				"caller": "alice (role user)", "watchdog_s": 20, "attempts": 2, "root_probe_answered_meanwhile": true})
+			continue
+		}
+		c.Distinct("wedge|policy-cost|" + shape.name)
+	}
+}
